@@ -99,7 +99,13 @@ pub fn run_shard(def: &MonitorDef, a: &Args) -> i32 {
 				label: RefCell::new(String::new()),
 			};
 			cx.progress("");
+			let t0 = Instant::now();
 			run_one(def, &cx, &mut rep);
+			let ms = t0.elapsed().as_millis() as u64;
+			rep.max("slowest_case_ms", ms);
+			if ms > 8000 {
+				rep.label("slow_cases", &format!("case {case}: {ms} ms ({})", cx.label.borrow()));
+			}
 			done_through = case as i64;
 			if last_flush.elapsed() > Duration::from_millis(1500) {
 				write_atomic(&out_file, &json!({"done_through": done_through, "finished": false, "report": rep.to_json()}).to_string());
